@@ -91,11 +91,38 @@ def correspondence(ctx, model_ok):
     return r
 
 
+def gen_wrapper_case(rng):
+    c = gen_connect_case(rng)
+    kind = rng.choice(['connect_left', 'connect_right', 'connect_inputs', 'add_circuit', 'extend', 'extend', 'extend'])
+    w = {'wrapper': kind, 'base': c['base'], 'other': c['other'], 'name': c['name'], 'add_prefix': c['add_prefix']}
+    bl = [g[0] for g in c['base']['gates']]
+    ol = [g[0] for g in c['other']['gates']]
+    if kind == 'connect_left':
+        w['tc'] = [rng.choice(bl) for _ in c['other']['inputs']] if bl else []
+    elif kind == 'connect_right':
+        w['oc'] = [rng.choice(ol) for _ in c['base']['inputs']] if ol else []
+    elif kind == 'extend':
+        w['right'] = rng.random() < 0.5
+        r = rng.random()
+        if r < 0.35:
+            w['tc'], w['oc'] = None, None
+        elif r < 0.6:
+            w['tc'], w['oc'] = [], []                 # explicit empty lists: side by side
+        elif r < 0.8:
+            w['tc'], w['oc'] = c['tc'], c['oc']
+        else:
+            w['tc'], w['oc'] = (c['tc'], None) if rng.random() < 0.5 else (None, c['oc'])
+    return w
+
+
 def oracle_cases(ctx, corr):
-    return [gen_connect_case(ctx.rng) for _ in range(ctx.n(400, 5000))]
+    return [gen_connect_case(ctx.rng) for _ in range(ctx.n(400, 5000))] + \
+           [gen_wrapper_case(ctx.rng) for _ in range(ctx.n(300, 3000))]
 
 
 def oracle(case):
+    if 'wrapper' in case:
+        return semoracle.oracle_wrapper(case)
     return semoracle.oracle_connect(case)
 
 
@@ -106,7 +133,7 @@ def classify(case, msg):
 def search(ctx, budget_s):
     t0 = time.time()
     while time.time() - t0 < budget_s:
-        c = gen_connect_case(ctx.rng)
+        c = gen_connect_case(ctx.rng) if ctx.rng.random() < 0.5 else gen_wrapper_case(ctx.rng)
         msg = oracle(c)
         if msg:
             return c, msg
